@@ -42,31 +42,31 @@ theorem take_set_snoc {α} (l : List α) (n : Nat) (x : α) (h : n < l.length) :
     | zero => simp
     | succ k => simp at h; simp [ih k h]
 
-/-- `vinsertpair` appends at the end (below the uint16 limit), whether or not it had to grow -/
+/-- `vinsertpair` on a Vgroup that is not full appends at the end, whether or not it had to grow -/
 theorem vinsertpair_snoc {m : Mem} (h : m.OK) (hn : m.nvelt < 65535) (t r : Nat) :
-    (vinsertpair m t r).1.members = m.members ++ [(t, r)] ∧ (vinsertpair m t r).2 = m.members.length + 1 ∧
-    (vinsertpair m t r).1.OK := by
+    ∃ p, vinsertpair m t r = some p ∧ p.1.members = m.members ++ [(t, r)] ∧ p.2 = m.members.length + 1 ∧ p.1.OK := by
   obtain ⟨g1, g2⟩ := Mem.grow_ok h
   have gm := Mem.grow_members h
   have gn := Mem.grow_nvelt m
   obtain ⟨a1, a2, a3, a4⟩ := g1
   have hl := Mem.members_length h
   have hmod : (m.grow.nvelt + 1) % 65536 = m.grow.nvelt + 1 := Nat.mod_eq_of_lt (by omega)
-  refine ⟨?_, ?_, ?_⟩
-  · simp only [vinsertpair, Mem.members, hmod]
+  have c : MAX_REF = 65535 := by decide
+  have hne : ¬ m.nvelt = MAX_REF := by omega
+  refine ⟨({ m.grow with arr := m.grow.arr.set m.grow.nvelt (t, r), nvelt := (m.grow.nvelt + 1) % 65536 }, (m.grow.nvelt + 1) % 65536),
+    by simp only [vinsertpair, hne, if_false], ?_, ?_, ?_⟩
+  · simp only [Mem.members, hmod]
     rw [take_set_snoc _ _ _ (by omega)]
     simp only [Mem.members] at gm
     rw [gm]
-  · simp only [vinsertpair, hmod]; omega
-  · simp only [vinsertpair, hmod]
+  · simp only [hmod]; omega
+  · simp only [hmod]
     refine ⟨?_, ?_, ?_, ?_⟩ <;> simp <;> omega
 
-/-- **the defect**: with 65535 members the next `vinsertpair` wraps `nvelt` to 0; the member list becomes empty
-    and the call reports 0 members -/
-theorem vinsertpair_wraps {m : Mem} (_h : m.OK) (hn : m.nvelt = 65535) (t r : Nat) :
-    (vinsertpair m t r).1.members = [] ∧ (vinsertpair m t r).2 = 0 := by
-  have gn := Mem.grow_nvelt m
-  simp [vinsertpair, Mem.members, gn, hn]
+/-- a full Vgroup (65535 members) refuses the insertion -/
+theorem vinsertpair_full {m : Mem} (hn : m.nvelt = 65535) (t r : Nat) : vinsertpair m t r = none := by
+  have c : MAX_REF = 65535 := by decide
+  simp [vinsertpair, hn, c]
 
 theorem idxOf?_some_lt {α} [BEq α] [LawfulBEq α] {a : α} {l : List α} {i : Nat} (h : List.idxOf? a l = some i) :
     i < l.length ∧ a ∈ l := by
